@@ -75,6 +75,16 @@ add('C18', "spec/ParProc.tla (one action per step of executor_pmap, environment 
     "Trusted: TLC, the deterministic executor (task functions run synchronously at Complete(t)). Worker-process crashes and KeyboardInterrupt inside the parallel loop are not modelled.",
     "TLA+ spec ParProc model-checked by TLC (safety + liveness) + state-graph behaviours replayed into the real loop", "5 C18, 3.7")
 
+add('C19', "spec/PacketCodec.tla transcribes the pack/unpack layers (run-length, JSON string literal, class-key escape, tty escape) over the alphabet "
+    "of the characters the encoding itself uses; TLC checks the run-length round-trip law for every string up to the bound and evaluates per-layer "
+    "outputs plus whether the layers as coded round-trip (witnesses = listed known findings); every point is replayed into rle_encode/rle_decode/"
+    "pack/unpack as string payload, dict key and list item. spec/PacketQueue.tla (chunked appends, reads racing the write at every visible length, "
+    "one corrupted byte, two readers) is model-checked (InOrderOnce, NothingPartial, ToldSafe, NothingLost, ToldMonotone, liveness EventuallyAll); an "
+    "edge-covering set of behaviours of its state graph is replayed on real PacketzQueue objects over real files comparing delivered ids, _told and "
+    "_seen after every receive; the last record is also cut at every real byte offset.",
+    "Trusted: TLC, the abstract-to-real byte mapping of the replay rig. Packet ids assumed unique; '__class__' dict keys are reserved.",
+    "TLA+ specs PacketCodec (exhaustive strings) and PacketQueue (model-checked, state graph replayed on real files)", "5 C19, 3.7")
+
 import sys
 checks = [C[p] for p in props if p in C]
 na = [{"property_id": p, "reason": "check not built yet in this round (build in progress; DESIGN.md section 10 gives the order)"} for p in props if p not in C]
